@@ -219,3 +219,16 @@ Example C03_walk_example :
   option_map (fun m => text_agrees (S (length (fst m))) (fst m) [123; 34; 100; 34; 58; 49; 46; 53; 101; 48; 125])
              (t2j_walk_gen fd_mark 0 3 ex_desc (encode (VStruct [(1, VDouble 4609434218613702656)]))) = Some true.
 Proof. vm_compute. repeat split; reflexivity. Qed.
+
+(* ---- the comparison of check 304 is sound: an accepted implementation text is the walk's text with every double marker
+   replaced by a JSON number lexeme denoting exactly the marked bits, byte-identical everywhere else ---- *)
+From DG Require Import T2JBytesCmp.
+
+Theorem C03_text_agrees_sound : forall ts fuel i, Forall tok_ok ts -> (length (render fd_mark ts) < fuel)%nat ->
+  text_agrees fuel (render fd_mark ts) i = true -> agrees ts i.
+Proof. exact text_agrees_sound. Qed.
+Print Assumptions C03_text_agrees_sound.
+
+Theorem C03_text_agrees_plain : forall b i, Forall (fun c => c <> 1) b -> text_agrees (S (length b)) b i = true -> i = b.
+Proof. exact text_agrees_plain. Qed.
+Print Assumptions C03_text_agrees_plain.
